@@ -10,5 +10,6 @@ def check(ck):
     ck.run(H.check_names_resolved_where_defined, ck, "C14.R1c")
     ck.run(H.check_graph_derivation, ck, "C14.R2")
     ck.run(H.check_graph_nodes_from_own_rules, ck, "C14.R5")
+    ck.run(H.check_edges_of_a_node_depend_on_its_function_only, ck, "C14.R6")
     ck.run(H.check_version_taint, ck, "C14.R3")
     ck.run(H.check_enforcement, ck, "C14.R4")
